@@ -162,10 +162,16 @@ pub trait DataLoader {
 fn is_allowed_external_data_path(path: &Path) -> bool {
     // Data file path must be relative and consist only of a filename.
     let mut components = path.components();
-    let Some(Component::Normal(_)) = components.next() else {
+    let Some(Component::Normal(name)) = components.next() else {
         return false;
     };
     if components.next().is_some() {
+        return false;
+    }
+    // `Path::components` normalizes away trailing separators and `.`
+    // components (eg. "file.data/" or "file.data/."). Require the path to be
+    // exactly the filename.
+    if name != path.as_os_str() {
         return false;
     }
 
